@@ -3,35 +3,30 @@ package c37
 import (
 	"testing"
 
-	"google.golang.org/protobuf/internal/filedesc"
-	"google.golang.org/protobuf/proto"
-	"google.golang.org/protobuf/reflect/protodesc"
-	"google.golang.org/protobuf/reflect/protoregistry"
+	"google.golang.org/protobuf/reflect/protoreflect"
 	"google.golang.org/protobuf/types/descriptorpb"
+	"google.golang.org/protobuf/types/gofeaturespb"
+	"google.golang.org/protobuf/encoding/prototext"
+	"google.golang.org/protobuf/reflect/protoregistry"
 )
 
 func TestProbe(t *testing.T) {
-	p := &descriptorpb.FileDescriptorProto{
-		Name: proto.String("a.proto"), Package: proto.String("p"), Syntax: proto.String("editions"), Edition: descriptorpb.Edition_EDITION_2023.Enum(),
-		EnumType: []*descriptorpb.EnumDescriptorProto{{Name: proto.String("E"),
-			Options: &descriptorpb.EnumOptions{Features: &descriptorpb.FeatureSet{EnumType: descriptorpb.FeatureSet_CLOSED.Enum()}},
-			Value:   []*descriptorpb.EnumValueDescriptorProto{{Name: proto.String("A"), Number: proto.Int32(1)}}}},
-		MessageType: []*descriptorpb.DescriptorProto{{Name: proto.String("M"),
-			ExtensionRange: []*descriptorpb.DescriptorProto_ExtensionRange{{Start: proto.Int32(10), End: proto.Int32(20)}},
-			EnumType: []*descriptorpb.EnumDescriptorProto{{Name: proto.String("N"),
-				Options: &descriptorpb.EnumOptions{Features: &descriptorpb.FeatureSet{EnumType: descriptorpb.FeatureSet_CLOSED.Enum()}},
-				Value:   []*descriptorpb.EnumValueDescriptorProto{{Name: proto.String("B"), Number: proto.Int32(1)}}}},
-		}},
-		Extension: []*descriptorpb.FieldDescriptorProto{{Name: proto.String("x"), Number: proto.Int32(10), Label: descriptorpb.FieldDescriptorProto_LABEL_OPTIONAL.Enum(),
-			Type: descriptorpb.FieldDescriptorProto_TYPE_MESSAGE.Enum(), TypeName: proto.String(".p.M"), Extendee: proto.String(".p.M"),
-			Options: &descriptorpb.FieldOptions{Lazy: proto.Bool(true)}}},
+	for _, md := range []protoreflect.MessageDescriptor{(&descriptorpb.FeatureSet{}).ProtoReflect().Descriptor(), (&gofeaturespb.GoFeatures{}).ProtoReflect().Descriptor()} {
+		fs := md.Fields()
+		for i := 0; i < fs.Len(); i++ {
+			f := fs.Get(i)
+			o := f.Options().(*descriptorpb.FieldOptions)
+			t.Logf("%s=%d kind=%v targets=%v defaults=%v support=%v", f.Name(), f.Number(), f.Kind(), o.GetTargets(), prototext.MarshalOptions{}.Format(&descriptorpb.FieldOptions{EditionDefaults: o.GetEditionDefaults()}), o.GetFeatureSupport())
+			if e := f.Enum(); e != nil {
+				s := ""
+				for j := 0; j < e.Values().Len(); j++ {
+					s += string(e.Values().Get(j).Name()) + " "
+				}
+				t.Logf("   values: %s", s)
+			}
+		}
 	}
-	f1, err := protodesc.NewFile(p, nil)
-	if err != nil {
-		t.Fatal(err)
-	}
-	b, _ := proto.Marshal(p)
-	f2 := filedesc.Builder{RawDescriptor: b, FileRegistry: &protoregistry.Files{}}.Build().File
-	t.Logf("protodesc: E closed=%v N closed=%v x lazy=%v", f1.Enums().Get(0).IsClosed(), f1.Messages().Get(0).Enums().Get(0).IsClosed(), f1.Extensions().Get(0).(interface{ IsLazy() bool }).IsLazy())
-	t.Logf("builder  : E closed=%v N closed=%v x lazy=%v", f2.Enums().Get(0).IsClosed(), f2.Messages().Get(0).Enums().Get(0).IsClosed(), f2.Extensions().Get(0).(interface{ IsLazy() bool }).IsLazy())
+	n := 0
+	protoregistry.GlobalFiles.RangeFiles(func(fd protoreflect.FileDescriptor) bool { n++; return true })
+	t.Logf("global files (without corpus): %d", n)
 }
